@@ -52,8 +52,9 @@ func c1Mask(fs imap.FlagSet) int {
 	return m
 }
 
-func (m *c1Mirror) apply(r response.Response) {
-	d := response.VerifDecode(r)
+func (m *c1Mirror) apply(r response.Response) { m.applyDecoded(response.VerifDecode(r)) }
+
+func (m *c1Mirror) applyDecoded(d response.VerifDecoded) {
 	switch d.Kind {
 	case 5:
 		m.expungeIssued = d.ExpungeIssued
